@@ -8,6 +8,31 @@ POSITIONS = ["field", "root", "tuple-elem", "enum-elem", "slice-elem", "set-elem
              "nested-field", "tuple-index", "index", "deref", "method", "wildcard-field", "struct-variant-field", "method-value"]
 
 
+# The same sweep one reference level up: the value handed to the pattern is a `&T`.  The comparator is a struct field of type
+# `&T`; the root positions differ only in how the asserted expression is WRITTEN (a borrow, a parenthesised borrow, a variable
+# holding the reference) - the form of that expression must not change what the root pattern is applied to.
+REF_POSITIONS = ["ref-field", "root-borrow", "root-borrow-paren", "root-ref-var", "tuple-elem-ref"]
+
+
+def wrap_ref(pos, g, t, v, pat):
+    """Returns (decls, type text, value expr, pattern text, value s-expression, asserted expression, setup)."""
+    T = g.rust_type(t)
+    E = g.rust_expr(v, t)
+    S = tgen.sexp(v)
+    adt = lambda ctor, names, vals: "(adt %s (names %s) (vals %s))" % (tgen.hexs(ctor), " ".join(tgen.hexs(n) for n in names), " ".join(vals))
+    if pos == "ref-field":
+        return "#[derive(Debug)] struct WR<'a> { f: &'a %s }" % T, "WR<'_>", "WR { f: &(%s) }" % E, "WR { f: %s }" % pat, adt("WR", ["f"], [S]), "v", ""
+    if pos == "root-borrow":
+        return "", T, E, pat, S, "&v", ""
+    if pos == "root-borrow-paren":
+        return "", T, E, pat, S, "(&v)", ""
+    if pos == "root-ref-var":
+        return "", T, E, pat, S, "r", "let r = &v;"
+    if pos == "tuple-elem-ref":
+        return "", "(&%s, u8)" % T, "(&(%s), 1u8)" % E, "(%s, _)" % pat, "(tuple %s (int 1))" % S, "v", ""
+    raise ValueError(pos)
+
+
 def wrap(pos, g, t, v, pat):
     """Returns (decls, type text, value expr, pattern text, value s-expression, value-for-meanings)."""
     T = g.rust_type(t)
@@ -67,5 +92,7 @@ POSITION_CLASS = {
     "enum-elem": "reference-binding", "slice-elem": "reference-binding", "set-elem": "reference-binding",
     "map-value": "reference-binding", "ok": "reference-binding", "err": "reference-binding",
     "struct-variant-field": "reference-binding", "wildcard-field": "reference-to-place",
+    "ref-field": "reference-binding", "root-borrow": "root-written-as-borrow", "root-borrow-paren": "root-written-as-borrow",
+    "root-ref-var": "reference-binding", "tuple-elem-ref": "reference-binding",
     "nested-field": "place", "tuple-index": "place", "index": "place", "deref": "place", "method": "method-result", "method-value": "temporary",
 }
